@@ -221,6 +221,8 @@ def open_driver(run, tgt, case):
     try:
         plc = harness.open_logix(tgt, case.get("path", "192.168.1.10"))
         return plc
+    except harness.StepBudgetExceeded:
+        run.add("C05", "open.nonterminating", "open() / tag upload kept sending requests (step budget exceeded)")
     except PycommError as e:
         chain = []
         x = e
@@ -252,6 +254,9 @@ def call(run, fn, what):
     from pycomm3.exceptions import PycommError
     try:
         return True, fn()
+    except harness.StepBudgetExceeded:
+        for prop in ("C01", "C02", "C03", "C04"):
+            run.add(prop, f"{what}.nonterminating", f"{what} kept sending requests (step budget exceeded)")
     except PycommError as e:
         run.add("C03", f"{what}.raises.{type(e).__name__}", f"{e!r} <- {e.__cause__!r}"[:500])
     except Exception as e:
